@@ -853,18 +853,23 @@ class ParallelProcess(Process):
         # Only end once.
         if self._ended:
             return
-        if self._pending_command:
-            # Collect the result of a command that is still in flight.
-            # It is kept for a caller that still expects it: the engine
-            # collects an update that is due in the same batch in which
-            # its process is deleted.
-            self._command_result = self.get_command_result()
-        self.send_command('end')
-        if self.profile:
-            stats = pstats.Stats()
-            stats.stats = self.get_command_result()  # type: ignore
-            assert self._stats_objs is not None
-            self._stats_objs.append(stats)
+        try:
+            if self._pending_command:
+                # Collect the result of a command that is still in
+                # flight. It is kept for a caller that still expects it:
+                # the engine collects an update that is due in the same
+                # batch in which its process is deleted.
+                self._command_result = self.get_command_result()
+            self.send_command('end')
+            if self.profile:
+                stats = pstats.Stats()
+                stats.stats = self.get_command_result()  # type: ignore
+                assert self._stats_objs is not None
+                self._stats_objs.append(stats)
+        except (EOFError, OSError):
+            # The child process is gone already (for example, it died of
+            # an exception in its next_update): there is nobody to tell.
+            self._pending_command = None
         self.multiprocess.join()
         self.multiprocess.close()
         self._ended = True
